@@ -5,20 +5,21 @@
 (* connection, or a NEW connection accepted by the stray catcher on the      *)
 (* announced sent-by address).  History variable arrived: tx -> connection.  *)
 EXTENDS Integers, Sequences, FiniteSets, TLC, Json, IOUtils
+CONSTANT Prop      \* the property whose check runs this validation ("C12"; "C02" for the TCP half of the return path)
 Trace == ndJsonDeserialize(IOEnv.TRACE_FILE)
 VARIABLES l, arrived, finaled
 tvars == <<l, arrived, finaled>>
 Put(f, k, v) == [x \in DOMAIN f \cup {k} |-> IF x = k THEN v ELSE f[x]]
 
 Verdict(e) ==
-    IF e.ev = "req" THEN (IF e.panic # "" THEN "P:C12:panic" ELSE IF e.stuck THEN "P:C12:message-loop-stalled" ELSE "")
-    ELSE IF e.panic # "" THEN "P:C12:panic"
+    IF e.ev = "req" THEN (IF e.panic # "" THEN "P:" \o Prop \o ":panic" ELSE IF e.stuck THEN "P:" \o Prop \o ":message-loop-stalled" ELSE "")
+    ELSE IF e.panic # "" THEN "P:" \o Prop \o ":panic"
     ELSE IF e.t \notin DOMAIN arrived \/ e.t \in finaled THEN ""          \* only provisional responses and the first final response are claimed
-    ELSE IF Len(e.got) = 0 THEN "P:C12:response-not-written-to-the-connection-the-request-used"
-    ELSE IF Len(e.got) > 1 THEN "P:C12:response-written-more-than-once"
+    ELSE IF Len(e.got) = 0 THEN "P:" \o Prop \o ":response-not-written-to-the-connection-the-request-used"
+    ELSE IF Len(e.got) > 1 THEN "P:" \o Prop \o ":response-written-more-than-once"
     ELSE IF e.got[1] = arrived[e.t] THEN ""
-    ELSE IF e.got[1] = "NEW" THEN "P:C12:response-sent-on-a-new-connection"
-    ELSE "P:C12:response-written-to-another-clients-connection"
+    ELSE IF e.got[1] = "NEW" THEN "P:" \o Prop \o ":response-sent-on-a-new-connection"
+    ELSE "P:" \o Prop \o ":response-written-to-another-clients-connection"
 
 TraceInit == l = 1 /\ arrived = <<>> /\ finaled = {}
 TraceNext ==
